@@ -48,7 +48,10 @@ func (r *asyncAdapterReadReactor) init(b []byte, readAll bool, cb AsyncCallback)
 }
 
 func (r *asyncAdapterReadReactor) onRead(err error) {
-	r.adapter.ioc.Deregister(&r.adapter.slot)
+	if r.adapter.slot.Events == 0 {
+		// Keep the slot registered (and the adapter alive) while a write is still pending on it.
+		r.adapter.ioc.Deregister(&r.adapter.slot)
+	}
 	if err != nil {
 		r.cb(err, r.readSoFar)
 	} else {
@@ -74,7 +77,10 @@ func (r *asyncAdapterWriteReactor) init(b []byte, writeAll bool, cb AsyncCallbac
 }
 
 func (r *asyncAdapterWriteReactor) onWrite(err error) {
-	r.adapter.ioc.Deregister(&r.adapter.slot)
+	if r.adapter.slot.Events == 0 {
+		// Keep the slot registered (and the adapter alive) while a read is still pending on it.
+		r.adapter.ioc.Deregister(&r.adapter.slot)
+	}
 	if err != nil {
 		r.cb(err, r.wroteSoFar)
 	} else {
